@@ -814,7 +814,7 @@ theorem quantRes_sound {e : Env} {o : Oracle} (hs : o.Sound e) {d : Bool} {lzy :
             obtain ⟨k1, k2⟩ := bodyKills_sound hs h4
             have hb := hx herr
             exact ⟨hb.1.quant lzy lo hi k1 k2, fun hh => headEq_quant_eqMod lzy lo hi (hb.headEq hh) hb.1 k1 k2⟩
-          · simp only [h4, if_false] at herr ⊢
+          · simp only [h4] at herr ⊢
             obtain ⟨he, hs'⟩ := eqOnly_errs herr
             exact absurd (by simp [hs']) h2
   · simp only [h1, if_false] at herr ⊢
